@@ -20,7 +20,7 @@ BUDGET = {"quick": 15, "thorough": 200}
 @st.composite
 def case(draw, optimizer, tier):
     spec = draw(strategies.run_spec(
-        optimizer, task=strategies.task_spec(),
+        optimizer, task=strategies.task_spec(array_rows=0.3),
         config=strategies.config_spec(optimizer, max_cycles=(1, 6 if tier == "quick" else 15), perturb=0.4,
                                       reverse_lists=True),
         modes=("serial",) * 8 + ("thread", "process")))
